@@ -8,6 +8,7 @@ universes.
 import itertools
 
 from vf import common
+from vf.models import cpulimit
 
 CHECK = dict(
     id="C26", level="exploration",
@@ -109,6 +110,7 @@ def relation(sa, sb):
 
 def run_shard(params, rec):
     common.quiet()
+    cpulimit.install()
     from miasm.core.interval import interval
     shard, nsh = params["shard"], params.get("nshards", NSHARDS)
     stride = params.get("stride", 1)
@@ -129,7 +131,7 @@ def run_shard(params, rec):
                     if stride > 1 and (idx // nsh) % stride:
                         continue
                     rec.count("family:" + name)
-                    mon.unary(name, list(lst), uni)
+                    mon.guarded(mon.unary, name, list(lst), uni)
             continue
         if kind == "pairs":
             lists = [list(c) for k in range(K + 1)
@@ -141,6 +143,8 @@ def run_shard(params, rec):
         for lst in lists:
             try:
                 objs.append((lst, interval(list(lst)), expand(lst)))
+            except cpulimit.CpuTimeout:
+                raise
             except Exception as exc:
                 rec.fail("constructor raises %s" % type(exc).__name__, "interval(%r) raised %r" % (lst, exc),
                          dict(bounds=lst))
@@ -154,13 +158,28 @@ def run_shard(params, rec):
                 if objs[ib] is None:
                     continue
                 rec.count("family:" + name)
-                mon.binary(name, objs[ia], objs[ib])
+                mon.guarded(mon.binary, name, objs[ia], objs[ib])
 
 
 class Monitor(object):
     def __init__(self, rec, interval):
         self.rec = rec
         self.interval = interval
+        self.hangs = 0
+
+    def guarded(self, fn, fam, *args):
+        """a case that does not finish is an observation (all operations on a
+        handful of small integers normally take microseconds)"""
+        if self.hangs >= 3:
+            self.rec.count("skipped_after_hangs")
+            return
+        try:
+            with cpulimit.cpu_limit(5):
+                fn(fam, *args)
+        except cpulimit.CpuTimeout:
+            self.hangs += 1
+            desc = repr([a[0] if isinstance(a, tuple) else a for a in args])
+            self.bad("%s case does not terminate (5s CPU)" % fn.__name__, "%s: %s" % (fam, desc), case=desc)
 
     def bad(self, key, what, **wit):
         self.rec.fail(key, what, {k: (v if isinstance(v, (int, str, bool, type(None))) else repr(v))
@@ -183,6 +202,8 @@ class Monitor(object):
         saved = list(lst)
         try:
             i = interval(lst)
+        except cpulimit.CpuTimeout:
+            raise
         except Exception as exc:
             self.bad("constructor raises %s" % type(exc).__name__, "interval(%r) raised %r" % (saved, exc),
                      bounds=saved)
@@ -228,6 +249,8 @@ class Monitor(object):
             if not (i == j) or (i != j):
                 self.bad("== false for the same set", "interval(%r) == interval(%r) is False" % (saved, wr),
                          bounds=saved, other=wr)
+        except cpulimit.CpuTimeout:
+            raise
         except Exception as exc:
             self.bad("unary operation raises %s" % type(exc).__name__, "on interval(%r): %r" % (saved, exc),
                      bounds=saved)
@@ -252,6 +275,8 @@ class Monitor(object):
             try:
                 r = fn()
                 got = list(r.intervals)
+            except cpulimit.CpuTimeout:
+                raise
             except Exception as exc:
                 self.bad("%s raises %s" % (op, type(exc).__name__), "%r %s %r raised %r" % (la, op, lb, exc),
                          a=la, b=lb)
@@ -270,6 +295,8 @@ class Monitor(object):
             rec.count("op:" + op)
             try:
                 got = fn()
+            except cpulimit.CpuTimeout:
+                raise
             except Exception as exc:
                 self.bad("%s raises %s" % (op, type(exc).__name__), "%r %s %r raised %r" % (la, op, lb, exc),
                          a=la, b=lb)
